@@ -38,7 +38,8 @@ def required_cells(tier):
         req["scen:" + s] = 10
     req["carrier:with-judged-inner-calls"] = 100 if tier == "quick" else 2000
     req["gen:follow-up/same-carrier-and-start"] = 300 if tier == "quick" else 6000
-    for hc in ("used-then-moved/receiver", "used-then-moved/returned", "moved/receiver"):
+    for hc in ("used-then-moved/receiver", "used-then-moved/returned", "moved/receiver",
+               "other-of-(receiver,returned)-moved-on/receiver", "other-of-(receiver,returned)-moved-on/returned"):
         req["pose:history/" + hc] = 30
     return req
 
@@ -99,6 +100,9 @@ def judge(case):
         if n:
             mu.cell("carrier:with-judged-inner-calls")
         return mu.result(nontrivial=n > 0, outcome="%d inner flat-flat calls judged" % n)
+    a, b, pre = C.effective(case)
+    if a is None:
+        return core.not_admitted("alias-reread")
     exp = K.inter(a, b)
     if not core.admitted():
         return core.not_admitted("margin")
@@ -107,7 +111,7 @@ def judge(case):
     mu = core.Multi()
     mu.cell("pair:%s,%s" % (ka, kb), "pair:%s,%s->%s" % (ka, kb, C.kname(exp)), "scen:" + scen, "gen:" + case["label"])
     mu.cell(*C.hist_cell(case))
-    x, y = C.lift_pair(case)
+    x, y = pre or C.lift_pair(case)
     kb_ = "%s,%s" % (ka, kb)
     C.run_inter(G.intersection, x, y, exp, "intersection(a,b)", mu, kb_)
     if ka != "P":
